@@ -264,6 +264,10 @@ enum Verdict {
 
 pub fn run_once(cfg: &WakeCfg, shard: &mut Shard) -> (u64, bool, bool) {
     payload::reset_ledger();
+    // Under Miri a move-out queue runs with a pointer-free payload: the speculative bitwise read
+    // that try_recv discards when it loses the position race would otherwise be reported as a
+    // dangling Box although it is never used (C04 only speaks about values that are returned).
+    payload::set_pod_mode(cfg!(miri) && cfg.fl == Flavour::Mpmc);
     api::reset_ids();
     hist::clock_reset();
     for i in 0..MAXT {
